@@ -9,5 +9,10 @@ package enumx
 // bytes, truncated, overlong, surrogate, beyond U+10FFFF, 0xFE/0xFF, Latin-1 e-acute).
 var HostileRunes = []string{
 	"\x09", "\x0a", "\x0b", "\x0c", "\x0d", "\x20", "\u0085", "\u00a0", "\u1680", "\u2000", "\u2001", "\u2002", "\u2003", "\u2004", "\u2005", "\u2006", "\u2007", "\u2008", "\u2009", "\u200a", "\u2028", "\u2029", "\u202f", "\u205f", "\u3000", "\ufeff", "\u200b", "\u200c", "\u200d", "\u2060", "\u00ad", "\u180e", "\ufffd", "\ufffe", "\x00", "\x01", "\x1d", "\x7f", "\u00e9", "\u0130", "\u212a", "\u023a", "\u023e", "\u1e9e", "\u017f", "\ufb03", "\u20ac", "\U0001f600",
+	// multi-byte CONTROL SEQUENCES of terminals, mark-up and transport encodings: complete patterns that filters for
+	// "dangerous" text recognise (no single byte of them is special): ECMA-48 CSI / OSC / charset sequences, C1 CSI,
+	// backspace overstrike, CR LF, caret and backslash notations, HTML/XML, comments, percent and entity encodings
+	"\x1b[0m", "\x1b[1;31m", "\x1b[2J", "\x1b[?25l", "\x1b[38;5;196m", "\x1b[H", "\x1b[ q", "\x1b]0;t\x07", "\x1b]8;;http://x\x1b\\", "\x1b(B", "\x1bc", "\x1b[", "\x1bP1$r\x1b\\", "\u009b31m", "\x9b0m",
+	"a\x08b", "_\x08a", "\r\n", "\n\r", "^[[0m", "\\033[0m", "\\x1b[0m", "\\e[0m", "<b>", "</b>", "<!--x-->", "<![CDATA[x]]>", "<?x?>", "&lt;", "&#27;", "&#x1b;", "/*x*/", "//x", "--x", "#x", "%1b%5b0m", "%00", "%0a", "=1B", "=\r\n", "\\u001b", "\\0",
 	"\xc2", "\xa0", "\x85", "\xe2\x80", "\xc0\x80", "\xed\xa0\x80", "\xf4\x90\x80\x80", "\xff", "\xfe\xff", "\xef\xbb", "\xe9",
 }
